@@ -104,7 +104,16 @@ type QueryStats struct {
 	mu                        sync.Mutex
 }
 
+// guarded by mu; the fields of a QueryStats are updated atomically or under its own mu
 var QueryStatsMap = make(map[int64]*QueryStats)
+
+// lookupQueryStats returns the query stats of orgid, if any were recorded
+func lookupQueryStats(orgid int64) (*QueryStats, bool) {
+	mu.Lock()
+	defer mu.Unlock()
+	qs, ok := QueryStatsMap[orgid]
+	return qs, ok
+}
 
 type ReadStats struct {
 	TotalBytesCount        uint64
@@ -131,6 +140,7 @@ func StartUsageStats() {
 }
 
 func GetQueryCount() {
+	mu.Lock()
 	QueryStatsMap[0] = &QueryStats{
 		QueryCount:                0,
 		QueriesSinceInstall:       0,
@@ -138,6 +148,7 @@ func GetQueryCount() {
 		TotalRespTimeSinceRestart: 0,
 		TotalRespTimeSinceInstall: 0,
 	}
+	mu.Unlock()
 	err := ReadQueryStats(0)
 	if err != nil {
 		log.Errorf("ReadQueryStats from file failed:%v\n", err)
@@ -176,7 +187,7 @@ func ReadQueryStats(orgid int64) error {
 		if QueryStatsMap == nil {
 			return utils.TeeErrorf("readQueryStats: QueryStatsMap is nil")
 		}
-		if qs, ok := QueryStatsMap[orgid]; ok {
+		if qs, ok := lookupQueryStats(orgid); ok {
 			qs.QueriesSinceInstall = flushedQueriesSinceInstall
 			qs.TotalRespTimeSinceInstall = flushedTotalRespTimeSinceInstall
 		}
@@ -364,7 +375,7 @@ func GetTotalLogLines(orgid int64) uint64 {
 }
 
 func FlushStatsToFile(orgid int64) error {
-	if qs, ok := QueryStatsMap[orgid]; ok {
+	if qs, ok := lookupQueryStats(orgid); ok {
 		filename := getQueryStatsFilename(getBaseQueryStatsDir(orgid))
 		fd, err := os.OpenFile(filename, os.O_RDWR|os.O_CREATE|os.O_TRUNC, 0666)
 		if err != nil {
@@ -383,7 +394,7 @@ func FlushStatsToFile(orgid int64) error {
 			log.Errorf("flushStatsToFile: write records failed, err=%v", err)
 			return err
 		}
-		log.Debugf("flushQueryStatsToFile: flushed queryStats' queriesSinceInstall=%v", QueryStatsMap[orgid].QueriesSinceInstall)
+		log.Debugf("flushQueryStatsToFile: flushed queryStats' queriesSinceInstall=%v", qs.QueriesSinceInstall)
 	}
 
 	if st, ok := lookupStats(orgid); ok {
@@ -472,10 +483,13 @@ func UpdateActiveSeriesCount(orgid int64, activeSeriesCount uint64) {
 }
 
 func GetQueryStats(orgid int64) (uint64, float64, float64, uint64) {
-	if _, ok := QueryStatsMap[orgid]; !ok {
+	qs, ok := lookupQueryStats(orgid)
+	if !ok {
 		return 0, 0, 0, 0
 	}
-	return QueryStatsMap[orgid].QueryCount, QueryStatsMap[orgid].TotalRespTimeSinceRestart, QueryStatsMap[orgid].TotalRespTimeSinceInstall, QueryStatsMap[orgid].QueriesSinceInstall
+	qs.mu.Lock()
+	defer qs.mu.Unlock()
+	return atomic.LoadUint64(&qs.QueryCount), qs.TotalRespTimeSinceRestart, qs.TotalRespTimeSinceInstall, atomic.LoadUint64(&qs.QueriesSinceInstall)
 }
 
 func GetCurrentMetricsStats(orgid int64) (uint64, uint64) {
@@ -488,17 +502,18 @@ func GetCurrentMetricsStats(orgid int64) (uint64, uint64) {
 
 func UpdateQueryStats(queryCount uint64, respTime float64, orgid int64) {
 	mu.Lock()
-	if _, ok := QueryStatsMap[orgid]; !ok {
-		QueryStatsMap[orgid] = &QueryStats{
+	qs, ok := QueryStatsMap[orgid]
+	if !ok {
+		qs = &QueryStats{
 			QueryCount:                0,
 			TotalRespTimeSinceRestart: 0,
 			TotalRespTimeSinceInstall: 0,
 			ActiveQueryCount:          0,
 		}
+		QueryStatsMap[orgid] = qs
 	}
 	mu.Unlock()
 
-	qs := QueryStatsMap[orgid]
 	atomic.AddUint64(&qs.QueryCount, queryCount)
 	atomic.AddUint64(&qs.QueriesSinceInstall, queryCount)
 	qs.mu.Lock()
@@ -508,7 +523,14 @@ func UpdateQueryStats(queryCount uint64, respTime float64, orgid int64) {
 }
 
 func UpdateQueryStatsForAllOrgs(queryCount uint64, respTime float64) {
+	mu.Lock()
+	allQs := make([]*QueryStats, 0, len(QueryStatsMap))
 	for _, qs := range QueryStatsMap {
+		allQs = append(allQs, qs)
+	}
+	mu.Unlock()
+
+	for _, qs := range allQs {
 		atomic.AddUint64(&qs.QueryCount, queryCount)
 		atomic.AddUint64(&qs.QueriesSinceInstall, queryCount)
 		qs.mu.Lock()
